@@ -195,8 +195,8 @@ package wallet
 //@     invariant sw == old(sw)
 //@     invariant 0 <= len(unspent) && len(unspent) <= rangeindex + 1
 //@     invariant forall k int :: { unspent[k] } 0 <= k && k < len(unspent) ==> !inPool[unspent[k].ID] && !lockedNow(sw, unspent[k].ID) && unspent[k].MaturityHeight <= tip.Height
-//@   ensures [v1] result1 == nil ==> forall k int, q int, j int :: { result0[k], callres("PoolTransactions")[q].SiacoinInputs[j] } 0 <= k && k < len(result0) && 0 <= q && q < len(callres("PoolTransactions")) && 0 <= j && j < len(callres("PoolTransactions")[q].SiacoinInputs) ==> result0[k].ID != callres("PoolTransactions")[q].SiacoinInputs[j].ParentID
-//@   ensures [v2] result1 == nil ==> forall k int, q int, j int :: { result0[k], callres("V2PoolTransactions")[q].SiacoinInputs[j] } 0 <= k && k < len(result0) && 0 <= q && q < len(callres("V2PoolTransactions")) && 0 <= j && j < len(callres("V2PoolTransactions")[q].SiacoinInputs) ==> result0[k].ID != callres("V2PoolTransactions")[q].SiacoinInputs[j].Parent.ID
+//@   ensures [v1] result1 == nil ==> called("PoolTransactions") && (forall k int, q int, j int :: { result0[k], callres("PoolTransactions")[q].SiacoinInputs[j] } 0 <= k && k < len(result0) && 0 <= q && q < len(callres("PoolTransactions")) && 0 <= j && j < len(callres("PoolTransactions")[q].SiacoinInputs) ==> result0[k].ID != callres("PoolTransactions")[q].SiacoinInputs[j].ParentID)
+//@   ensures [v2] result1 == nil ==> called("V2PoolTransactions") && (forall k int, q int, j int :: { result0[k], callres("V2PoolTransactions")[q].SiacoinInputs[j] } 0 <= k && k < len(result0) && 0 <= q && q < len(callres("V2PoolTransactions")) && 0 <= j && j < len(callres("V2PoolTransactions")[q].SiacoinInputs) ==> result0[k].ID != callres("V2PoolTransactions")[q].SiacoinInputs[j].Parent.ID)
 //@   ensures [unlocked] result1 == nil ==> forall k int :: { result0[k] } 0 <= k && k < len(result0) ==> !lockedNow(sw, result0[k].ID)
 //@   ensures [mature] result1 == nil ==> forall k int :: { result0[k] } 0 <= k && k < len(result0) ==> result0[k].MaturityHeight <= callres("UnspentSiacoinElements", 0).Height
 //
@@ -305,8 +305,8 @@ package wallet
 //@   ensures [enough] result3 == nil ==> cval(result2) >= cval(amount)
 //@   ensures [unreserved] result3 == nil ==> forall k int :: { result1[k] } 0 <= k && k < len(result1) ==> !lockedNow(sw, result1[k].ID)
 //@   ensures [mature] result3 == nil ==> forall k int :: { result1[k] } 0 <= k && k < len(result1) ==> result1[k].MaturityHeight <= result0.Height
-//@   ensures [unspent-v1] result3 == nil ==> forall k int, q int, j int :: { result1[k], callres("PoolTransactions")[q].SiacoinInputs[j] } 0 <= k && k < len(result1) && 0 <= q && q < len(callres("PoolTransactions")) && 0 <= j && j < len(callres("PoolTransactions")[q].SiacoinInputs) ==> callres("PoolTransactions")[q].SiacoinInputs[j].ParentID != result1[k].ID
-//@   ensures [unspent-v2] result3 == nil ==> forall k int, q int, j int :: { result1[k], callres("V2PoolTransactions")[q].SiacoinInputs[j] } 0 <= k && k < len(result1) && 0 <= q && q < len(callres("V2PoolTransactions")) && 0 <= j && j < len(callres("V2PoolTransactions")[q].SiacoinInputs) ==> callres("V2PoolTransactions")[q].SiacoinInputs[j].Parent.ID != result1[k].ID
+//@   ensures [unspent-v1] result3 == nil && len(result1) > 0 ==> called("PoolTransactions") && (forall k int, q int, j int :: { result1[k], callres("PoolTransactions")[q].SiacoinInputs[j] } 0 <= k && k < len(result1) && 0 <= q && q < len(callres("PoolTransactions")) && 0 <= j && j < len(callres("PoolTransactions")[q].SiacoinInputs) ==> callres("PoolTransactions")[q].SiacoinInputs[j].ParentID != result1[k].ID)
+//@   ensures [unspent-v2] result3 == nil && len(result1) > 0 ==> called("V2PoolTransactions") && (forall k int, q int, j int :: { result1[k], callres("V2PoolTransactions")[q].SiacoinInputs[j] } 0 <= k && k < len(result1) && 0 <= q && q < len(callres("V2PoolTransactions")) && 0 <= j && j < len(callres("V2PoolTransactions")[q].SiacoinInputs) ==> callres("V2PoolTransactions")[q].SiacoinInputs[j].Parent.ID != result1[k].ID)
 //@   ensures [distinct] result3 == nil ==> forall a int, b int :: { result1[a], result1[b] } 0 <= a && a < b && b < len(result1) ==> result1[a].ID != result1[b].ID
 //@   ensures [confirmed-only] result3 == nil && !useUnconfirmed ==> forall k int :: { result1[k] } 0 <= k && k < len(result1) ==> !poolCreated(result1[k].ID)
 //
@@ -435,7 +435,7 @@ package wallet
 //@     invariant [distinct] forall a int, b int :: { utxos[a], utxos[b] } 0 <= a && a < b && b < len(utxos) ==> utxos[a].ID != utxos[b].ID
 //@     invariant [ahead] forall k int, m int :: { utxos[k], elements[m] } 0 <= k && k < len(utxos) && rangeindex < m && m < len(elements) ==> utxos[k].ID != elements[m].ID
 //@   ensures [unreserved] forall k int :: { result0[k] } 0 <= k && k < len(result0) ==> !lockedNow(sw, result0[k].ID) && result0[k].MaturityHeight <= bh
-//@   ensures [unspent-v1] forall k int, q int, j int :: { result0[k], callres("PoolTransactions")[q].SiacoinInputs[j] } 0 <= k && k < len(result0) && 0 <= q && q < len(callres("PoolTransactions")) && 0 <= j && j < len(callres("PoolTransactions")[q].SiacoinInputs) ==> callres("PoolTransactions")[q].SiacoinInputs[j].ParentID != result0[k].ID
-//@   ensures [unspent-v2] forall k int, q int, j int :: { result0[k], callres("V2PoolTransactions")[q].SiacoinInputs[j] } 0 <= k && k < len(result0) && 0 <= q && q < len(callres("V2PoolTransactions")) && 0 <= j && j < len(callres("V2PoolTransactions")[q].SiacoinInputs) ==> callres("V2PoolTransactions")[q].SiacoinInputs[j].Parent.ID != result0[k].ID
+//@   ensures [unspent-v1] called("PoolTransactions") && (forall k int, q int, j int :: { result0[k], callres("PoolTransactions")[q].SiacoinInputs[j] } 0 <= k && k < len(result0) && 0 <= q && q < len(callres("PoolTransactions")) && 0 <= j && j < len(callres("PoolTransactions")[q].SiacoinInputs) ==> callres("PoolTransactions")[q].SiacoinInputs[j].ParentID != result0[k].ID)
+//@   ensures [unspent-v2] called("V2PoolTransactions") && (forall k int, q int, j int :: { result0[k], callres("V2PoolTransactions")[q].SiacoinInputs[j] } 0 <= k && k < len(result0) && 0 <= q && q < len(callres("V2PoolTransactions")) && 0 <= j && j < len(callres("V2PoolTransactions")[q].SiacoinInputs) ==> callres("V2PoolTransactions")[q].SiacoinInputs[j].Parent.ID != result0[k].ID)
 //@   ensures [distinct] forall a int, b int :: { result0[a], result0[b] } 0 <= a && a < b && b < len(result0) ==> result0[a].ID != result0[b].ID
 //@   ensures [ok] result2 == nil
